@@ -12,6 +12,12 @@ func lookup(engine string) func([]string) string {
 	if engine == "race" {
 		return raceOp
 	}
+	if engine == "pid" {
+		return pidOp
+	}
+	if engine == "watch" {
+		return watchOp
+	}
 	if f, ok := newrelic.VerifEngines[engine]; ok {
 		return f
 	}
